@@ -223,7 +223,11 @@ package parse
 //@   loop 2 invariant st: ins != nil ==> sinv(l) && statepre(ins, l)
 //@   loop 2 decreases ite(ins == nil, 0, measure(ins, l))
 // G1: the token after STRING_OPEN is TEXT (possibly empty) or a terminal error token
+// C14: whatever the quote character, a string that is lexed to its end is STRING_OPEN, at least one TEXT (possibly
+// empty), ..., STRING_CLOSE
+//@   asserts three: result != nil ==> sentcount(l.tokens) >= old(sentcount(l.tokens)) + 3
 //@   asserts g1: sent(l.tokens, old(sentcount(l.tokens)), "token").tokenType == tokenStringOpen && (sent(l.tokens, old(sentcount(l.tokens)) + 1, "token").tokenType == tokenText || sent(l.tokens, old(sentcount(l.tokens)) + 1, "token").tokenType == tokenError)
+//@   loop 1 invariant g1b: sentcount(l.tokens) == old(sentcount(l.tokens)) + 1 ==> l.pos < len(l.input)
 //@   loop 1 invariant g1: sentcount(l.tokens) >= old(sentcount(l.tokens)) + 1 && sent(l.tokens, old(sentcount(l.tokens)), "token").tokenType == tokenStringOpen && (sentcount(l.tokens) >= old(sentcount(l.tokens)) + 2 ==> sent(l.tokens, old(sentcount(l.tokens)) + 1, "token").tokenType == tokenText)
 //@   loop 2 invariant g1: sentcount(l.tokens) >= old(sentcount(l.tokens)) + 2 && sent(l.tokens, old(sentcount(l.tokens)), "token").tokenType == tokenStringOpen && sent(l.tokens, old(sentcount(l.tokens)) + 1, "token").tokenType == tokenText
 
